@@ -476,6 +476,12 @@ class BasicBlock(Value):
             self.__replacements[old] = new
 
     def ReplaceUses(self, old: Union[int, Value], new: Optional[Value]):
+        # The new value may itself be scheduled for replacement (a second
+        # forwarded load right behind the first), follow the chain so we
+        # never rewire a use to a value that is about to be removed
+        while isinstance(new, Value) and new.Reference in self.__replaceUses:
+            new = self.__replaceUses[new.Reference]
+
         if isinstance(old, Value):
             self.__replaceUses[old.Reference] = new
         else:
